@@ -334,6 +334,8 @@ def calculate_lm(steps, rate, accel, accum="clear"):
         time_final_star = 0 # Fallback, if no solutions are found.
         two_a = mpmath.mpf(accel) # 2 * a = 2 * accel/2
         c_factor = accum_adj - mpmath.mpf(pos_f_adj) * 2147483648
+        if t_rev > 0: # After a reversal the target boundary must be crossed, not just reached
+            c_factor += 1 if accel < 0 else -1
         discriminant = rate_effective * rate_effective - 2 * two_a * c_factor # b^2 - 4 a c
 
         neg_root = -1
